@@ -598,15 +598,20 @@ def _set_cache_size(_porcelain, size, res):
     maxsize.  Left alone (and recorded) if the cache is not an lru_cache any more."""
     import functools
 
-    cur = getattr(_porcelain, "cachable_tensor_method", None)
-    inner = getattr(cur, "__wrapped__", None)
-    if inner is None or not hasattr(cur, "cache_parameters"):
+    orig = _state.setdefault("orig_cache", getattr(_porcelain, "cachable_tensor_method", None))
+    # only a genuine functools.lru_cache is re-wrapped (anything else - a hand-written cache that merely
+    # offers the same attributes - may call its inner function differently: re-wrapping one raised
+    # TypeErrors that were the knob's fault, found with a legal refactoring as negative control)
+    genuine = type(orig) is type(functools.lru_cache(maxsize=1)(lambda: None))
+    inner = getattr(orig, "__wrapped__", None)
+    if not genuine or inner is None:
         if size != 128:
             res["probes"]["cache_size_knob_unavailable"] = 1
         return
-    if cur.cache_parameters().get("maxsize") != size:
+    if size == 128:
+        _porcelain.cachable_tensor_method = orig
+    else:
         _porcelain.cachable_tensor_method = functools.lru_cache(maxsize=size)(inner)
-    if size != 128:
         res["probes"]["kernel_cache_capacity_1_or_2"] = 1
 
 
